@@ -48,8 +48,9 @@ def field_of(exp, got):
 
 def run(pid, tier, seed):
     exe = vlib.build_harness("make", ["make.cxx"])
-    exe_asan = vlib.build_harness("make", ["make.cxx"], cfg="asan") if pid == "C14" else None
     q = tier == "quick"
+    # (the sanitizer build of the generated dispatch takes two minutes per changed tree: thorough tier only)
+    exe_asan = vlib.build_harness("make", ["make.cxx"], cfg="asan") if (pid == "C14" and not q) else None
     consts = {"Use": "<- FactoryNames", "MaxLinks": 2 if q else 4, "Record": "TRUE"}
     tdir = os.path.join(vlib.BUILD, "traces")
     os.makedirs(tdir, exist_ok=True)
